@@ -4,6 +4,7 @@ Property theorems only (model and spec: KinModel/Reads.lean; invariant lemmas: K
 regenerated call-site table: KinModel/Gen/ReadSites.lean).
 -/
 import KinModel.Reads
+import KinModel.ReadsMedium
 import KinModel.Lemmas.C11
 import KinModel.Gen.ReadSites
 import KinModel.Gen.WalkSites
@@ -607,5 +608,63 @@ theorem walk_location_args : ∀ r ∈ walkSites,
     (r.arg = "&resolved" → r.callee = r.fn ∧
       r.locArg = (if r.fn = "resolvePathItemRef" then "documentPath" else "componentPath")) ∧
     (r.arg = "&p" → r.callee = r.fn ∧ r.fn = "resolvePathItemRef") := by decide
+
+/-! ### The library's own readers (openapi3/loader_uri_reader.go): the medium touched is the location handed over -/
+
+theorem faithfulB_iff (m : Medium) (l : RLoc) : faithfulB m l = true ↔ Faithful m l := by
+  cases m <;> simp [faithfulB, Faithful, and_assoc]
+
+/-- ReadFromHTTP alone: it fetches only the location itself, and only one that names a scheme and a host. -/
+theorem http_reader_reads_the_location (l : RLoc) : ∀ m, readFromHTTP l = some m → Faithful m l := by
+  intro m h
+  unfold readFromHTTP at h
+  split at h
+  · cases h
+  · rename_i hn
+    cases h
+    simp only [not_or] at hn
+    exact ⟨rfl, hn.1, hn.2⟩
+
+/-- ReadFromFile alone: a local file is read only for a host-less location without scheme or with `file:`, and it is
+the file at the location's path (a scheme-relative `//host/path` is NOT the local file `/path`). -/
+theorem file_reader_reads_the_location (l : RLoc) : ∀ m, readFromFile l = some m → Faithful m l := by
+  intro m h
+  unfold readFromFile at h
+  split at h
+  · rename_i hf
+    cases h
+    simp [isFile] at hf
+    exact ⟨hf.1.2, hf.2, rfl, hf.1.1⟩
+  · cases h
+
+/-- Every chain of the library's readers, in any order and of any length (`ReadFromURIs(...)`), reads the location it
+is handed or nothing. -/
+theorem reader_chain_reads_the_location (rs : List (RLoc → Option Medium)) (l : RLoc)
+    (hrs : ∀ r ∈ rs, r = readFromHTTP ∨ r = readFromFile) : Faithful (readFromURIs rs l) l := by
+  induction rs with
+  | nil => simp [readFromURIs, Faithful]
+  | cons r rest ih =>
+    unfold readFromURIs
+    cases hr : r l with
+    | none => exact ih (fun r' h' => hrs r' (List.mem_cons_of_mem _ h'))
+    | some m =>
+      rcases hrs r (List.mem_cons_self) with h | h
+      · subst h; exact http_reader_reads_the_location l m hr
+      · subst h; exact file_reader_reads_the_location l m hr
+
+/-- DefaultReadFromURI (below its cache): full strength, every location. -/
+theorem default_reader_reads_the_location (l : RLoc) : Faithful (defaultRead l) l :=
+  reader_chain_reads_the_location _ l (by simp)
+
+/-- A location that names a host is never served from the local file system. -/
+theorem host_location_never_local (l : RLoc) (h : l.host ≠ "") : ∀ p, defaultRead l ≠ .file p := by
+  intro p hp
+  have := default_reader_reads_the_location l
+  rw [hp] at this
+  exact h this.1
+
+/-- non-vacuity: the scheme-relative location `//h.example/etc/passwd` is unsupported, `/etc/x.json` is the local file -/
+example : defaultRead ⟨"", "h.example", "/etc/passwd"⟩ = .unsupported ∧ defaultRead ⟨"", "", "/etc/x.json"⟩ = .file "/etc/x.json" ∧
+    defaultRead ⟨"https", "h.example", "/x"⟩ = .http ⟨"https", "h.example", "/x"⟩ := by decide
 
 end KinModel.Reads
